@@ -149,6 +149,11 @@ def load_program(repo=None, target_set="lib", crate="bitcask"):
     p.fact_file = f
     p.tree_hash = hsh
     p.extract_meta = meta
+    if crate == "bitcask" and target_set == "lib" and not os.environ.get("VERIF_NO_INLINE"):
+        # procedure-like private helpers are inlined into their callers (rules/inline.py)
+        import inline
+
+        inline.apply(p)
     return p
 
 
